@@ -409,6 +409,15 @@ class FitsHooks(Hooks):
             from .interp import symarr
             uc = kwargs.get('usecols')
             dt = kwargs.get('dtype')
+            # the element type the text is read into: single (or half) precision moves every value by a relative 6e-8 (1e-3) - a request on a tabulated
+            # value no longer meets it
+            from .interp import Marker, Finding
+            def narrow(t_):
+                return (isinstance(t_, str) and t_.lstrip('<>=|') in ('f', 'f4', 'float32', 'single', 'e', 'f2', 'float16', 'half')) or \
+                       (isinstance(t_, Marker) and t_.name.split('.')[-1] in ('float32', 'single', 'float16', 'half'))
+            kinds_ = [f_[1] for f_ in dt if isinstance(f_, tuple) and len(f_) >= 2] if isinstance(dt, list) else [dt]
+            if any(narrow(t_) for t_ in kinds_):
+                interp.findings.append(Finding('dtype', 'np.loadtxt reads the table with dtype %r: single precision, the values read differ from the values in the file' % (dt,), node, mod.path))
             if isinstance(uc, int) and not isinstance(uc, bool):
                 uc = [uc]
             if isinstance(uc, (list, tuple)) and len(uc) == 1 and isinstance(uc[0], int) and not isinstance(dt, list) and not kwargs.get('unpack'):
